@@ -602,9 +602,12 @@ fn osc(rng: &mut Rng, flavor: Flavor, out: &mut Vec<u8>) {
     }
     // now and then a payload beyond the parser's buffer limits (1 KiB OSC buffer, 16 parameters)
     if rng.chance(1, 50) {
-        let n = *rng.pick(&[1000usize, 1023, 1024, 1025, 1100, 2100, 4100, 5000, 12000]);
-        for _ in 0..n {
-            out.push(b'a' + rng.below(26) as u8);
+        // (rarely beyond 64 KiB: offsets into the payload kept in 16 bits wrap there)
+        let n = if rng.chance(1, 12) { *rng.pick(&[65_530usize, 66_000, 70_000, 140_000]) } else { *rng.pick(&[1000usize, 1023, 1024, 1025, 1100, 2100, 4100, 5000, 12000]) };
+        // a few parameter separators inside the long payload, also late ones
+        let seps: Vec<usize> = (0..rng.below(4)).map(|_| rng.below(n)).collect();
+        for i in 0..n {
+            out.push(if seps.contains(&i) { b';' } else { b'a' + rng.below(26) as u8 });
         }
     }
     string_terminator(rng, out, true);
